@@ -8,6 +8,7 @@ import (
 	"time"
 
 	distiller "github.com/markusmobius/go-domdistiller"
+	"github.com/markusmobius/go-domdistiller/vtrace"
 	"golang.org/x/net/html"
 )
 
@@ -18,6 +19,7 @@ type callOutcome struct {
 	panic string // non-empty: recovered panic (with the top of the stack)
 	hang  bool   // the call did not return within the watchdog limit
 	dur   time.Duration
+	hooks []vtrace.Event // events recorded by the verif hooks during the call
 }
 
 var watchdog = 20 * time.Second
@@ -46,8 +48,10 @@ func guarded(f func() (*distiller.Result, error)) callOutcome {
 				out.panic = fmt.Sprintf("%v | %s", r, strings.Join(keep, " <- "))
 			}
 			out.dur = time.Since(start)
+			out.hooks = vtrace.End()
 			done <- out
 		}()
+		vtrace.Begin()
 		out.res, out.err = f()
 	}()
 	select {
@@ -119,4 +123,15 @@ func outcomeEvent(run int, out callOutcome) (Event, bool) {
 		return Event{"ev": "Hang", "run": run, "ms": out.dur.Milliseconds()}, true
 	}
 	return nil, false
+}
+
+// hookKV returns the key/value pairs of a hook event as a map.
+func hookKV(ev vtrace.Event) map[string]interface{} {
+	m := map[string]interface{}{}
+	for i := 0; i+1 < len(ev.KV); i += 2 {
+		if k, ok := ev.KV[i].(string); ok {
+			m[k] = ev.KV[i+1]
+		}
+	}
+	return m
 }
